@@ -159,7 +159,7 @@ func checkC11(c *Ctx) {
 	c.Floor("RLOCK-WRITE", 1)
 	c.Decides("LOCK-COVERS (go/cfg, must-analysis): in UpdateTaxaMoveArrays every write to an accumulator shared between the TBE workers (slice parameter not indexed by the call's own reference branch, pointer parameter) happens with the mutex parameter held on every path")
 	c.lockCovers("LOCK-COVERS", c.Func("support", "", "UpdateTaxaMoveArrays"), "the result is independent of the number of threads")
-	c.Floor("LOCK-COVERS", 3)
+	c.Floor("LOCK-COVERS", 2)
 	nl, _ := c.copyLock("COPYLOCK")
 	if nl < 5 {
 		c.Undecided("COPYLOCK", "scan-count", 0, fmt.Sprintf("only %d methods on lock-holding types seen", nl))
